@@ -1049,7 +1049,10 @@ def arr_attr(I, a, attr):
     if attr == 'get_indexer':
         raise Unsupported('get_indexer')
     if attr == 'unique':
-        raise Unsupported('unique()')
+        def unique(I_):
+            # pandas unique(): values in order of first appearance = the elements that are not duplicates of an earlier one
+            return sym.compress(a, sym.invert(sym.duplicated_first(a, 'first')))
+        return unique
     if attr == 'tz':
         return getattr(a, 'tz', None)
     if attr == 'duplicated':
